@@ -163,11 +163,17 @@ PLAN = {
         'note': COMMON_TRUST + 'Region content (zip(1..).map closure + extend) is abstracted; emojicon tables are T3.',
         'explanation': 'Contract proof around an abstracted region: see coverage.obligation_list; the region itself is an assumption.',
     },
+    'C19': {
+        'kani': ['k_ffi_config_lifecycle', 'k_ffi_null_free', 'k_keycode_to_char'], 'miri': ['ffi_life_cycles'],
+        'level': 'proof',
+        'units': ['layout'],
+        'technique': 'Kani harnesses on the real unsafe FFI code (complete finite proofs) + Verus NUL-freedom of key characters; Miri-executed life cycles as bounded stand-in for strings, context handles and leaks',
+        'claim': 'Kani proves on the real ffi.rs (no unwinding bound needed beyond the 11-option loop): riti_config_new returns a non-null exclusively owned handle, any two setter calls change exactly their options and the Rust getters report them, riti_config_free releases it, and freeing a null config/suggestion/context/string is a no-op; Verus+Kani prove that every key character is NUL-free ASCII.  Everything else the statement names (string read-outs equal to the Rust values and NUL-terminated, independence from later context calls and from freeing the context, no invalid access, no leak) is only checked by executing fixed FFI life cycles under Miri -- a bounded stand-in, not a proof.',
+        'note': COMMON_TRUST + 'Kani cannot run CString::from_raw (strlen), CStr::from_ptr, file loading or HashMap::new, and its two suggestion-string harnesses do not terminate within 25 minutes here, so they are not registered; Verus raw-pointer permissions would require rewriting ffi.rs.  The Miri stand-in covers the call sequences of miri/verif_ffi_miri.rs only.',
+    },
 }
 
-NOT_YET = {
-    'C19': 'Kani harnesses for the FFI layer are not built yet (work in progress)',
-}
+NOT_YET = {}
 
 
 def units_for(prop, tier):
